@@ -18,12 +18,12 @@ MODULES = {"C03": ["QuillModel.Props.C03Delivery"], "C10": ["QuillModel.Props.C1
 OBLIG = ["QuillModel.Obligations.BackendW_C10"] if _HAVE_A else []
 OBLIG_BY_PROP = {"C10": ["QuillModel.Obligations.BackendW_C10"]} if _HAVE_A else {}
 # lift round (w2_lifts): the whole-log bound of Props/C10Replay.lean closed (Props/C10ReplayWhole.lean, helpers
-# Backend/LiftRing{Pot,Pop,Top}.lean: new bundle-A Closed instance InvR — log writes + ring potential <= pops)
+# Backend/LiftRing{Pot,Pop,Top}.lean: new bundle-A Closed instance InvRg — log writes + ring potential <= pops)
 if _HAVE_A:
     THEOREMS["C10"] += ["Backend.C10_ring_potential", "Backend.C10_log_at_most_once_any_level",
                         "Backend.C10_backtrace_at_most_once_per_flush", "Backend.C10_nothing_handed_before_pop",
                         "Backend.C10_backtrace_once_or_never", "Backend.c10ReplayInit_start",
-                        "Backend.C10_whole_bound_false_pinned", "Backend.PA.InvR.closed"]
+                        "Backend.C10_whole_bound_false_pinned", "Backend.PA.InvRg.closed"]
     MODULES["C10"] += ["QuillModel.Props.C10ReplayWhole"]
 # lift round (w2_lifts), C03: delivery composed with the pop-time dispatch into an equality over whole runs
 # (Props/C03Whole.lean, helpers Backend/LiftOnce{,Nodup}.lean: bundle-A Closed instance WInv), and the loop fuel of
